@@ -6,10 +6,11 @@ import json
 from harness import core
 from harness.core import coq_str, coq_list, coq_bool
 from harness.gen import ftree as T
+from harness.gen import c01lines as L
 from harness.impl import c01cascade as I
 
-IMPORTS = ("From Ford Require Import Base.Str Base.StrX Sem.Tree Sem.TypeSpec Sem.CascadeTypes Sem.Cascade "
-           "Corr.C01 Corr.C01cascade.")
+IMPORTS = ("From Coq Require Import String.\nFrom Ford Require Import Base.Str Base.StrX Sem.Tree Sem.TypeSpec Sem.DeclSpec "
+           "Sem.CascadeTypes Sem.Cascade Sem.CascadeSpec Corr.C01 Corr.C01cascade.")
 THEOREMS = []
 PROPS_FILE = "theories/Props/C01cascade.v"
 BUILD_TARGETS = ["theories/Corr/C01cascade.vo"]
@@ -186,12 +187,94 @@ def run_probes(chk, P, items, what):
     return kept, out
 
 
+def line_is_placed(ctx, form):
+    """rough: the state is one where the statement is at home (used for exploration output only)"""
+    k, inc, lvl = ctx
+    if lvl != 0:
+        return False
+    if form == "XProgram":
+        return k == "KFile"
+    if form in ("XBound", "XFinal"):
+        return k == "KType" and inc
+    if form == "XModProcRef":
+        return k == "KInterface"
+    if form == "XModProcImpl":
+        return k != "KInterface"
+    if form in ("XAssociate", "XEndAssociate"):
+        return k in I.HAS_CALLS
+    return True
+
+
+def run_slines(chk, P, n, stats, explore=False):
+    """spelled statements of Sem/CascadeSpec.v: rendered by Coq, probed, judged"""
+    rng = chk.rng
+    gen = []
+    for _ in range(n):
+        form, term, ctxs = L.gen_line(rng, tricky=rng.choice([0.0, 0.0, 0.15, 0.4]))
+        gen.append((form, term, ctxs))
+    texts = []
+    for i in range(0, len(gen), 500):
+        out = chk.coq_eval(IMPORTS, "map render_text [" + "; ".join(f"({g[1]})" for g in gen[i:i + 500]) + "]")
+        got = L.parse_coq_strings(out) if not out.startswith("COQ-ERROR") else None
+        if got is None or len(got) != len(gen[i:i + 500]):
+            chk.obligation("model-evaluation", False, "render_text: " + out[-1500:])
+            return
+        texts += got
+    terms, kept = [], []
+    for (form, term, ctxs), text in zip(gen, texts):
+        stats["forms"][form] = stats["forms"].get(form, 0) + 1
+        for ctx in [rng.choice(ctxs)] + (contexts(rng, 1) if rng.random() < 0.3 else []):
+            o = P.probe(ctx[0], ctx[1], ctx[2], text)
+            if o["container"] != I.KIND_CLASS[ctx[0]]:
+                chk.violation("broken-correspondence", {"what": "probe set-up did not reach the intended container",
+                                                        "ctx": ctx, "line": text, "observed": o}, False)
+                continue
+            kept.append((ctx, form, term, text, o))
+            terms.append(f"({ctx[0]}, {coq_bool(ctx[1])}, {coq_bool(ctx[2] == 0)}, ({term}), {coq_str(text)}, {obs_term(o)})")
+    out = chk.coq_judge(IMPORTS, "sprobe", "judge_sline", terms, shard=400)
+    if out is None:
+        return
+    chk.traces += len(kept)
+    for idx, (ctx, form, term, text, o) in enumerate(kept):
+        code = out.get(idx, 0)
+        stats["sprobes"] += 1
+        chk.count(("sline", ctx, text), nontrivial=True,
+                  sample={"ctx": ctx, "line": text, "ford": o["branch"]} if idx < 2 else None)
+        if code == UNMODELLED:
+            stats["unmodelled"] += 1
+            continue
+        region, bits = code // 4, code % 4
+        if code != MALFORMED and bits == 0:
+            continue
+        if code != MALFORMED and region == 9:
+            # outside the side conditions of the dispatch theorem (wrong place, keyword-like names):
+            # deviations are expected there; model and FORD must still agree
+            stats["outside_side_conditions_deviating"] = stats.get("outside_side_conditions_deviating", 0) + 1
+            if explore and bits & 1:
+                print("SLINE-OUTSIDE-MODEL-MISMATCH", ctx, repr(text), o["branch"], o["created"])
+            if explore and line_is_placed(ctx, form):
+                print("SLINE-OUTSIDE", form, ctx, repr(text), "->", o["branch"], o["created"], o["ifaces"], o["raised_in_dispatch"])
+            if not bits & 1:
+                continue
+        if code:
+            payload = {"what": "a spelled statement (Sem/CascadeSpec.v) in a parser state", "code": code, "ctx": ctx,
+                       "form": form, "sline": term, "line": text,
+                       "ford": {k: o[k] for k in ("branch", "created", "ifaces", "raised_in_dispatch")}}
+            if explore:
+                print("SLINE", json.dumps(payload))
+            if code == MALFORMED:
+                chk.violation("broken-correspondence", dict(payload, what="probed text differs from the rendered line"), False)
+            else:
+                chk.violation("failing-input" if bits & 2 else "broken-correspondence", payload, bool(bits & 2))
+
+
 def run_part(chk, explore=False):
     rng = chk.rng
     quick = chk.tier == "quick"
     P = I.Prober()
-    stats = {"probes": 0, "unmodelled": 0, "branches": {}}
+    stats = {"probes": 0, "sprobes": 0, "unmodelled": 0, "branches": {}, "forms": {}}
     try:
+        run_slines(chk, P, 400 if quick else 8000, stats, explore)
         items = []
         for line in CORPUS:
             for ctx in [("KModule", False, 0), ("KType", True, 0), ("KInterface", False, 0), ("KFile", False, 0)] \
